@@ -82,21 +82,25 @@ Record state := {
   jobs : nat -> jst;
   avail : nat -> nat;
   unfinished : Z;
-  failed : list nat;             (* failedJobs (job indices, in insertion order) *)
+  failed : list nat;             (* every job that left its loop in a state other than DONE, in order (what
+                                    failedJobs was before ccf82b1) *)
+  fdict : list nat;              (* experiment.failedJobs: the same, minus the entries dropped when their identifier
+                                    is submitted again (fx7, ccf82b1) *)
   reg : nat -> option nat;       (* scheduler.jobs: identifier -> job *)
   queue : list cb;
   wst : waitst
 }.
 
 Definition init (W : workload) : state :=
-  {| jobs := fun _ => jst0; avail := total W; unfinished := 0; failed := []; reg := fun _ => None;
+  {| jobs := fun _ => jst0; avail := total W; unfinished := 0; failed := []; fdict := []; reg := fun _ => None;
      queue := []; wst := WNone |}.
 
 (* fx5: a job whose requests on a token exceed its total is refused at submission;
-   fx6: a failed dependency only cancels a job that has not started *)
-Record fixes := { fx2 : bool; fx3 : bool; fx4 : bool; fx5 : bool; fx6 : bool }.
-Definition all_fixed := {| fx2 := true; fx3 := true; fx4 := true; fx5 := true; fx6 := true |}.
-Definition no_fix := {| fx2 := false; fx3 := false; fx4 := false; fx5 := false; fx6 := false |}.
+   fx6: a failed dependency only cancels a job that has not started;
+   fx7: the failure recorded for an identifier is dropped when that identifier is submitted again (ccf82b1) *)
+Record fixes := { fx2 : bool; fx3 : bool; fx4 : bool; fx5 : bool; fx6 : bool; fx7 : bool }.
+Definition all_fixed := {| fx2 := true; fx3 := true; fx4 := true; fx5 := true; fx6 := true; fx7 := true |}.
+Definition no_fix := {| fx2 := false; fx3 := false; fx4 := false; fx5 := false; fx6 := false; fx7 := false |}.
 
 (* ------------------------------------------------------------------ small helpers *)
 Definition upd {A} (f : nat -> A) (j : nat) (v : A) : nat -> A := fun x => if Nat.eqb x j then v else f x.
@@ -110,13 +114,14 @@ Definition w_held (r : jst) v := {| st := st r; uns := uns r; ev := ev r; pc := 
 Definition w_fdep (r : jst) v := {| st := st r; uns := uns r; ev := ev r; pc := pc r; cur := cur r; held := held r; fdep := v; launches := launches r |}.
 Definition w_launches (r : jst) v := {| st := st r; uns := uns r; ev := ev r; pc := pc r; cur := cur r; held := held r; fdep := fdep r; launches := v |}.
 
-Definition s_jobs (s : state) v := {| jobs := v; avail := avail s; unfinished := unfinished s; failed := failed s; reg := reg s; queue := queue s; wst := wst s |}.
-Definition s_avail (s : state) v := {| jobs := jobs s; avail := v; unfinished := unfinished s; failed := failed s; reg := reg s; queue := queue s; wst := wst s |}.
-Definition s_unfinished (s : state) v := {| jobs := jobs s; avail := avail s; unfinished := v; failed := failed s; reg := reg s; queue := queue s; wst := wst s |}.
-Definition s_failed (s : state) v := {| jobs := jobs s; avail := avail s; unfinished := unfinished s; failed := v; reg := reg s; queue := queue s; wst := wst s |}.
-Definition s_reg (s : state) v := {| jobs := jobs s; avail := avail s; unfinished := unfinished s; failed := failed s; reg := v; queue := queue s; wst := wst s |}.
-Definition s_queue (s : state) v := {| jobs := jobs s; avail := avail s; unfinished := unfinished s; failed := failed s; reg := reg s; queue := v; wst := wst s |}.
-Definition s_wst (s : state) v := {| jobs := jobs s; avail := avail s; unfinished := unfinished s; failed := failed s; reg := reg s; queue := queue s; wst := v |}.
+Definition s_jobs (s : state) v := {| jobs := v; avail := avail s; unfinished := unfinished s; failed := failed s; fdict := fdict s; reg := reg s; queue := queue s; wst := wst s |}.
+Definition s_avail (s : state) v := {| jobs := jobs s; avail := v; unfinished := unfinished s; failed := failed s; fdict := fdict s; reg := reg s; queue := queue s; wst := wst s |}.
+Definition s_unfinished (s : state) v := {| jobs := jobs s; avail := avail s; unfinished := v; failed := failed s; fdict := fdict s; reg := reg s; queue := queue s; wst := wst s |}.
+Definition s_failed (s : state) v := {| jobs := jobs s; avail := avail s; unfinished := unfinished s; failed := v; fdict := fdict s; reg := reg s; queue := queue s; wst := wst s |}.
+Definition s_fdict (s : state) v := {| jobs := jobs s; avail := avail s; unfinished := unfinished s; failed := failed s; fdict := v; reg := reg s; queue := queue s; wst := wst s |}.
+Definition s_reg (s : state) v := {| jobs := jobs s; avail := avail s; unfinished := unfinished s; failed := failed s; fdict := fdict s; reg := v; queue := queue s; wst := wst s |}.
+Definition s_queue (s : state) v := {| jobs := jobs s; avail := avail s; unfinished := unfinished s; failed := failed s; fdict := fdict s; reg := reg s; queue := v; wst := wst s |}.
+Definition s_wst (s : state) v := {| jobs := jobs s; avail := avail s; unfinished := unfinished s; failed := failed s; fdict := fdict s; reg := reg s; queue := queue s; wst := v |}.
 
 Definition setjob (s : state) (j : nat) (r : jst) : state := s_jobs s (upd (jobs s) j r).
 Definition enqueue (s : state) (c : cb) : state := s_queue s (queue s ++ [c]).
@@ -232,7 +237,7 @@ Definition main_loop_l (r : jst) : jst * bool :=
   else (w_pc r PAwaitReady, false).
 
 Definition commit (s : state) (j : nat) (p : jst * bool) : state :=
-  setjob (if snd p then s_failed s (failed s ++ [j]) else s) j (fst p).
+  setjob (if snd p then s_fdict (s_failed s (failed s ++ [j])) (fdict s ++ [j]) else s) j (fst p).
 
 (* registration loop of aio_submit: dependency.check() for each dependency in turn.  The
    coroutine is running, so Event.set() wakes nobody: the wake-up flag is dropped. *)
@@ -349,7 +354,7 @@ Definition run_step (W : workload) (fx : fixes) (s : state) (j : nat) : state :=
 (* awaitcompletion() *)
 Definition wait_check (s : state) : state :=
   if unfinished s =? 0
-  then s_wst s (match failed s with [] => WReturned | _ => WRaised end)
+  then s_wst s (match fdict s with [] => WReturned | _ => WRaised end)
   else s_wst s WBlocked.
 
 Definition run_cb (W : workload) (fx : fixes) (s : state) (c : cb) : state :=
@@ -391,7 +396,10 @@ Definition submit (W : workload) (fx : fixes) (s : state) (j : nat) : state :=
   | Some k =>
       match st (jobs s k) with
       | ERROR =>                                       (* "Re-submitting job" *)
-          if fx2 fx then spawn (s_reg (s_unfinished s (unfinished s + 1)) (upd (reg s) id (Some j)))
+          if fx2 fx then
+            (* fx7: `failedJobs.pop(job.identifier, None)` - the outcome of this submission replaces the failure *)
+            let fd := if fx7 fx then filter (fun x => negb (Nat.eqb (j_ident (spec W x)) id)) (fdict s) else fdict s in
+            spawn (s_fdict (s_reg (s_unfinished s (unfinished s + 1)) (upd (reg s) id (Some j))) fd)
           else spawn s
       | _ => setjob s j (w_pc (jobs s j) (PDup k))
       end
